@@ -167,6 +167,10 @@ def check_statement(ctx, s, d, kind):
 # ---------------------------------------------------------------------------------
 
 SEPS = ["-", "/", ":", " ", ".", ","]
+import json as _json, os as _os
+from ..common import VERIF_DIR as _VD
+with open(_os.path.join(_VD, "vf", "spec", "time_vocab.json")) as _f:
+    TIME_VOCAB = _json.load(_f)
 
 
 def time_format_cases(rng, d, n):
@@ -176,8 +180,10 @@ def time_format_cases(rng, d, n):
     from sqlglot.time import format_time
 
     D = Dialect.get_or_raise(d)
-    mapping = dict(D.TIME_MAPPING or {})
-    inverse = dict(D.INVERSE_TIME_MAPPING or {})
+    # the format vocabulary is pinned (vf/spec/time_vocab.json, taken from the unchanged tree): reading it from the
+    # library at run time would follow a change that drops or alters an entry
+    mapping = dict(TIME_VOCAB[d or "base"]["time_mapping"])
+    inverse = dict(TIME_VOCAB[d or "base"]["inverse"])
     native_tokens = sorted(mapping) if mapping else ["%Y", "%m", "%d", "%H", "%M", "%S", "%y", "%j", "%b"]
     templates = []
     for cls in (exp.TimeToStr, exp.StrToTime, exp.StrToDate):
